@@ -1037,10 +1037,45 @@ class SymStr:
         r = self.__eq__(o)
         return SymBool(z3.Not(r.z)) if type(r) is SymBool else not r
 
-    def _ord(self, o):
-        raise Unsupported("ordering of symbolic text")
+    @staticmethod
+    def _as_numeral(x):
+        """(SymInt|int value, (min digits, max digits)) when x is a pure canonical numeral, else None"""
+        if type(x) is SymStr and len(x.parts) == 1 and type(x.parts[0]) is Dec:
+            v = x.parts[0].v
+            return v, (len(str(max(v.iv[0], 0))), len(str(max(v.iv[1], 0))))
+        if type(x) is str and x.isdigit() and (x == "0" or x[0] != "0"):
+            return int(x), (len(x), len(x))
+        return None
 
-    __lt__ = __le__ = __gt__ = __ge__ = _ord
+    def _ord(self, o, op):
+        """lexicographic order of two pure decimal numerals (the only ordering of symbolic text that is modelled):
+        compare the numbers padded on the right to equal length; on a tie the shorter string is the smaller."""
+        a, b = SymStr._as_numeral(self), SymStr._as_numeral(o)
+        if a is None or b is None:
+            raise Unsupported("ordering of symbolic text")
+        (va, (la0, la1)), (vb, (lb0, lb1)) = a, b
+        if la1 > 12 or lb1 > 12:
+            raise Unsupported("ordering of long symbolic numerals")
+        za, zb = (va.z if type(va) is SymInt else z3.BitVecVal(va, W)), (vb.z if type(vb) is SymInt else z3.BitVecVal(vb, W))
+
+        def has_len(z, n):
+            lo = 0 if n == 1 else 10 ** (n - 1)
+            return z3.And(z >= lo, z < 10 ** n)
+        cases = []
+        for i in range(la0, la1 + 1):
+            for j in range(lb0, lb1 + 1):
+                m = max(i, j)
+                pa, pb = za * (10 ** (m - i)), zb * (10 ** (m - j))
+                lt = z3.Or(pa < pb, z3.And(pa == pb, z3.BoolVal(i < j)))
+                eq = z3.And(pa == pb, z3.BoolVal(i == j))
+                res = {"<": lt, "<=": z3.Or(lt, eq), ">": z3.Not(z3.Or(lt, eq)), ">=": z3.Not(lt)}[op]
+                cases.append(z3.And(has_len(za, i), has_len(zb, j), res))
+        return SymBool(z3.simplify(z3.Or(*cases)))
+
+    def __lt__(self, o): return self._ord(o, "<")
+    def __le__(self, o): return self._ord(o, "<=")
+    def __gt__(self, o): return self._ord(o, ">")
+    def __ge__(self, o): return self._ord(o, ">=")
 
 
 # ------------------------------------------------------------------ dual-mode formula builders (harness side)
